@@ -371,6 +371,10 @@ def run(prop, tier, seed, replay=None):
     preds = sorted(g.printed, key=lambda p: json.dumps(p, sort_keys=True))
     if len(preds) < 1000:
         raise Inconclusive("TLC emitted only %d cases" % len(preds))
+    # predictions of the prescriptive design for the same cases: a tree in which a deviation has been repaired matches these
+    presc = {json.dumps(p["case"], sort_keys=True): p for p in m.printed}
+    if len(presc) != len(preds):
+        raise Inconclusive("prescriptive and descriptive model enumerate different case sets (%d / %d)" % (len(presc), len(preds)))
     models.append(dict(cfg="DidResolve.gen.cfg", states=g.distinct, transitions=g.generated, cases=len(preds), wall_s=round(g.wall, 1)))
 
     # 3. concretise + execute
@@ -398,7 +402,7 @@ def run(prop, tier, seed, replay=None):
         raise Inconclusive("driver returned %d results for %d cases" % (len(results), len(cases)))
 
     # 4. judge
-    ndrift, nnotes, nviol_cases = 0, 0, 0
+    ndrift, nnotes, nviol_cases, repaired = 0, 0, 0, 0
     distinct, abstract_seen = set(), set()
     drift_samples, note_samples, samples = [], {}, []
     for cc in cases:
@@ -408,6 +412,12 @@ def run(prop, tier, seed, replay=None):
         if pred is None and cc["kind"] == "rt":
             pred = rt_pred.get((cc["x"]["hc"], cc["x"]["pc"]))
         viol, drift, notes = judge(cc, pred, r)
+        if drift and pred is not None:
+            # not what the descriptive model says: does the tree behave like the repaired design on this case?
+            _, drift_p, _ = judge(cc, presc[json.dumps(pred["case"], sort_keys=True)], r)
+            if not drift_p:
+                repaired += 1
+                drift = []
         if r.get("parsed"):
             distinct.add(json.dumps([cc["kind"], cc.get("did") or r.get("did", "")[:12], cc.get("url"), cc.get("server"), cc.get("local"), cc.get("meta"),
                                      cc.get("keytype"), cc.get("defect")], sort_keys=True))
@@ -429,13 +439,16 @@ def run(prop, tier, seed, replay=None):
         rep.notes.append("DRIFT: " + d)
     for n in list(note_samples.values())[:6]:
         rep.notes.append("NOTE: " + n)
+    if repaired:
+        rep.notes.append("NOTE: %d executed cases behave like the PRESCRIPTIVE design rather than the descriptive one: a deviation constant of "
+                         "spec/cfg/DidResolve.gen.cfg can be switched to TRUE (and its known_findings entry closed)" % repaired)
     if ndrift > max(5, len(cases) // 50) and not rep.violations:
         rep.inconclusive.append("%d of %d executed cases deviate from the descriptive model's prediction (spec/code drift)" % (ndrift, len(cases)))
 
     cov = dict(evaluations=len(cases), distinct_nontrivial=len(distinct), exhaustive=True,
                abstract_cases_enumerated_by_tlc=len(preds), abstract_cases_reaching_the_resolver=len(abstract_seen),
                roundtrip_cases=len(rts), cases_with_property_violation=nviol_cases, known_findings=sorted(rep.known),
-               drift=ndrift, notes=nnotes, models=models, samples=samples,
+               drift=ndrift, notes=nnotes, cases_matching_only_the_prescriptive_design=repaired, models=models, samples=samples,
                rule="TLC enumerates the complete product of abstract classes of DidResolve.tla (24 host classes x 10 path classes x 14 server answers for "
                     "remote did:web; 14 answers x 2 local histories x 3 metadata options for managed did:web; did:jwk / did:key x validity x metadata) and "
                     "proves the invariants for the prescriptive design; every enumerated case is concretised (%s concrete variant(s) per class dimension, "
